@@ -20,7 +20,7 @@ The TS path (`demux_ts_packet`) is in `ZvbiModel/Demux/Ts.lean` and reuses every
 * `pesPacketFrame`             `demux_pes_packet_frame`
 * `Wrap`, `wrapAround`         `struct wrap`, `wrap_around`
 * `St`, `St.init`              PES demux context after `vbi_dvb_pes_demux_new`
-* `SrcCfg`, `SrcCfg.current`   shape of the two repaired statements of the source (parameter of the PES loop)
+* `SrcCfg`, `SrcCfg.current`   shape of the three repaired statements of the source (parameter of `lineAddress` .. `pesFeed`)
 * `pesFeed cfg s buf`          `vbi_dvb_demux_feed` with a callback that returns TRUE -> `Res`
 * `pesCor cfg s buf si maxLines` one `vbi_dvb_demux_cor` call; `pesCorDrain` loops it over a buffer
 * `Res {st frames err}`        new state, frames delivered in order, `some e` iff the C code would
@@ -73,6 +73,36 @@ def SL_CAPTION_525_F1 : Nat := 0x20
 def SL_CAPTION_525_F2 : Nat := 0x40
 def SL_WSS_CPR1204 : Nat := 0x800
 
+/-- The statements of dvb_demux.c whose shape `translate/gen_demux.py` reads from the current
+source.  Every function that depends on them takes the shape as a parameter, so that theorems can
+be stated for the repaired and for the unrepaired source alike; the driver passes `SrcCfg.current`. -/
+structure SrcCfg where
+  /-- `demux_pes_packet_frame`: with `callback == NULL` a frame without lines is skipped (`continue`) -/
+  corSkipsEmpty : Bool
+  /-- `demux_pes_packet`: a data unit error discards the lines collected so far (`0 != err`, not `err < 0`) -/
+  pesDiscards : Bool
+  /-- `line_address`: VBI_ERR_SLICED_BUFFER_OVERFLOW is tested only where a line is stored, i.e. after
+  the new-frame tests of both branches (fix dvb-demux-full-frame); `false` while it is the first
+  statement of the function -/
+  lateOverflow : Bool
+  /-- `demux_ts_packet`: a PES packet that is complete after the header evaluation of a TS packet (all of its
+  payload was already in `ts_buffer`: first packet after (re)synchronisation) gets the "PES packet complete"
+  step there (fix dvb-demux-ts-first-packet, F30); `false` while only the copy loop has that step -/
+  tsCompletesInHeader : Bool
+  deriving DecidableEq, Repr
+
+/-- the source as it is now (regenerated from /repo on every run) -/
+def SrcCfg.current : SrcCfg :=
+  { corSkipsEmpty := Zvbi.Gen.demuxCorSkipsEmptyFrame, pesDiscards := Zvbi.Gen.demuxPesDiscardsOnError,
+    lateOverflow := Zvbi.Gen.demuxLateOverflowTest, tsCompletesInHeader := Zvbi.Gen.demuxTsCompletesInHeader }
+/-- the tree before the fix commits 776a0f0 / 7c6e61c -/
+def SrcCfg.unrepaired : SrcCfg := { corSkipsEmpty := false, pesDiscards := false, lateOverflow := false, tsCompletesInHeader := false }
+/-- the tree with 776a0f0 and 7c6e61c but with the overflow test of `line_address` in front (finding C07-full-frame) -/
+def SrcCfg.earlyOverflow : SrcCfg := { corSkipsEmpty := true, pesDiscards := true, lateOverflow := false, tsCompletesInHeader := false }
+/-- all four repairs -/
+def SrcCfg.repaired : SrcCfg :=
+  { corSkipsEmpty := true, pesDiscards := true, lateOverflow := true, tsCompletesInHeader := true }
+
 structure Sliced where
   id : Nat
   line : Nat
@@ -118,21 +148,27 @@ inductive LA where
   deriving DecidableEq, Repr
 
 /-- `line_address` with `rpp == NULL`.  The slot push itself is done by the caller (`pushLine`),
-because the C callers either fill the slot or undo the allocation (`--f->sp`). -/
-def lineAddress (f : Frame) (lofp : Nat) (sys625 : Bool) : LA :=
-  if f.lines.length ≥ N_SLICED then .err
+because the C callers either fill the slot or undo the allocation (`--f->sp`).
+`cfg.lateOverflow = false`: `f->sp >= f->sliced_end` is the first test; `true` (fix
+dvb-demux-full-frame): it stands in both branches after the new-frame / line-order tests, where the
+slot is allocated.  (The two late tests are written unconditionally: in the old shape they are
+never reached with a full buffer.) -/
+def lineAddress (cfg : SrcCfg) (f : Frame) (lofp : Nat) (sys625 : Bool) : LA :=
+  if cfg.lateOverflow = false ∧ f.lines.length ≥ N_SLICED then .err
   else
     let (field, fieldLine, frameLine) := lofpToLine lofp sys625
     if frameLine ≠ 0 then
       if frameLine ≤ f.lastFrameLine then
         if f.nDu > 0 then .err
         else .newFrame     -- both `<` and `==` (rpp == NULL) return -1
+      else if f.lines.length ≥ N_SLICED then .err
       else
         .ok { f with lastField := field, lastFieldLine := fieldLine, lastFrameLine := frameLine,
                      nDu := f.nDu + 1 } frameLine
     else
       if f.lastDuId ≠ 0 ∧ field ≠ f.lastField ∧ f.nDu = 0 then .newFrame
       else if f.lastDuId ≠ 0 ∧ field ≠ f.lastField ∧ field < f.lastField then .err
+      else if f.lines.length ≥ N_SLICED then .err
       else .ok { f with lastField := field, lastFieldLine := fieldLine, nDu := f.nDu + 1 } 0
 
 def pushLine (f : Frame) (id line : Nat) (data : Bytes) : Frame :=
@@ -154,13 +190,13 @@ inductive DU where
   deriving DecidableEq, Repr
 
 /-- the `switch (data_unit_id)` body for a unit `d = p[0 .. ]` whose `2 + len <= d.length` was checked -/
-def dataUnit (f : Frame) (d : Bytes) (id len : Nat) : DU :=
+def dataUnit (cfg : SrcCfg) (f : Frame) (d : Bytes) (id len : Nat) : DU :=
   let addr (minLen : Nat) (sys625 : Bool) (k : Frame → Nat → DU) : DU :=
     if len < minLen then .fail f .err
     else match d[2]? with
       | none => .fail f (.fault (.oob "du_lofp"))
       | some lofp =>
-        match lineAddress f lofp sys625 with
+        match lineAddress cfg f lofp sys625 with
         | .err => .fail f .err
         | .newFrame => .fail f .newFrame
         | .ok f' line => k f' line
@@ -201,7 +237,7 @@ def dataUnit (f : Frame) (d : Bytes) (id len : Nat) : DU :=
 /-- `extract_data_units (f, &src, &src_left)`: `d` = `*src .. *src + *src_left`.
 Returns the frame, the result and the new `*src .. ` (empty on success).
 `fuel`: every iteration removes >= 2 bytes; `extract` below supplies `d.length + 1`. -/
-def extractLoop : Nat → Frame → Bytes → Frame × XR × Bytes
+def extractLoop (cfg : SrcCfg) : Nat → Frame → Bytes → Frame × XR × Bytes
   | 0, f, d => (f, .fault (.assertFail "extract_fuel"), d)
   | fuel + 1, f, d =>
     if d.length ≤ 2 then (f, .done, [])       -- while (p < p_end_m2) ; *src_left = 0
@@ -210,15 +246,15 @@ def extractLoop : Nat → Frame → Bytes → Frame × XR × Bytes
       | id :: len :: _ =>
         if len + 2 > d.length then (f, .err, d)      -- p + data_unit_length > p_end_m2
         else
-          match dataUnit f d id len with
+          match dataUnit cfg f d id len with
           | .fail f' r => (f', r, d)
-          | .skip => extractLoop fuel { f with lastDuId := id } (d.drop (len + 2))
-          | .store f' => extractLoop fuel { f' with lastDuId := id } (d.drop (len + 2))
+          | .skip => extractLoop cfg fuel { f with lastDuId := id } (d.drop (len + 2))
+          | .store f' => extractLoop cfg fuel { f' with lastDuId := id } (d.drop (len + 2))
       | _ => (f, .fault (.oob "du_header"), d)
 
-def extract (f : Frame) (d : Bytes) : Frame × XR × Bytes :=
+def extract (cfg : SrcCfg) (f : Frame) (d : Bytes) : Frame × XR × Bytes :=
   if d.length < 2 then (f, .fault (.assertFail "extract_src_left"), d)    -- assert (*src_left >= 2)
-  else extractLoop (d.length + 1) f d
+  else extractLoop cfg (d.length + 1) f d
 
 /-- frame / PTS part of `struct _vbi_dvb_demux` -/
 structure FS where
@@ -241,23 +277,23 @@ inductive PR where
 (`Zvbi.Gen.demuxCorSkipsEmptyFrame`, regenerated from /repo; `false` on the unchanged tree).
 The `for (;;)` runs at most twice (theorem `pesPacketFrame_two_rounds`); the third round is the
 unreachable `assert (0)`. Returns new frame state, frames delivered, result, new `*src ..`. -/
-def pesPacketFrame : Nat → Bool → Bool → FS → Bytes → FS × List FrameOut × PR × Bytes
+def pesPacketFrame (cfg : SrcCfg) : Nat → Bool → Bool → FS → Bytes → FS × List FrameOut × PR × Bytes
   | 0, _, _, fs, d => (fs, [], .fault (.assertFail "pes_packet_frame_loop"), d)
   | fuel + 1, hasCb, skipEmpty, fs, d =>
     let fs1 : FS := if fs.newFrame then
         { fs with frame := resetFrame fs.frame, framePts := fs.packetPts, newFrame := false } else fs
-    match extract fs1.frame d with
+    match extract cfg fs1.frame d with
     | (f, .done, rest) => ({ fs1 with frame := f }, [], .done, rest)
     | (f, .err, rest) => ({ fs1 with frame := f }, [], .err, rest)
     | (f, .fault e, rest) => ({ fs1 with frame := f }, [], .fault e, rest)
     | (f, .newFrame, rest) =>
       let fs2 : FS := { fs1 with frame := f, newFrame := true }
       if !hasCb then
-        if skipEmpty ∧ f.lines.isEmpty then pesPacketFrame fuel hasCb skipEmpty fs2 rest
+        if skipEmpty ∧ f.lines.isEmpty then pesPacketFrame cfg fuel hasCb skipEmpty fs2 rest
         else (fs2, [], .callback, rest)
       else
         let out : FrameOut := { pts := fs2.framePts, lines := f.lines }
-        let (fs3, outs, r, rest') := pesPacketFrame fuel hasCb skipEmpty fs2 rest
+        let (fs3, outs, r, rest') := pesPacketFrame cfg fuel hasCb skipEmpty fs2 rest
         (fs3, out :: outs, r, rest')
 
 /-- `decode_timestamp` (the mark check is disabled in the C code) -/
@@ -409,23 +445,6 @@ inductive Stop where
   | fault (e : Err)
   deriving DecidableEq, Repr
 
-/-- The two statements of dvb_demux.c whose shape `translate/gen_demux.py` reads from the current
-source.  Every function that depends on them takes the shape as a parameter, so that theorems can
-be stated for the repaired and for the unrepaired source alike; the driver passes `SrcCfg.current`. -/
-structure SrcCfg where
-  /-- `demux_pes_packet_frame`: with `callback == NULL` a frame without lines is skipped (`continue`) -/
-  corSkipsEmpty : Bool
-  /-- `demux_pes_packet`: a data unit error discards the lines collected so far (`0 != err`, not `err < 0`) -/
-  pesDiscards : Bool
-  deriving DecidableEq, Repr
-
-/-- the source as it is now (regenerated from /repo on every run) -/
-def SrcCfg.current : SrcCfg :=
-  { corSkipsEmpty := Zvbi.Gen.demuxCorSkipsEmptyFrame, pesDiscards := Zvbi.Gen.demuxPesDiscardsOnError }
-/-- the tree before the fix commits 776a0f0 / 7c6e61c -/
-def SrcCfg.unrepaired : SrcCfg := { corSkipsEmpty := false, pesDiscards := false }
-def SrcCfg.repaired : SrcCfg := { corSkipsEmpty := true, pesDiscards := true }
-
 /-- frame state after `demux_pes_packet_frame` reported a data unit error in the PES path -/
 def pesErrFs (cfg : SrcCfg) (fs : FS) : FS :=
   if cfg.pesDiscards then { fs with newFrame := true } else fs
@@ -441,7 +460,7 @@ def pesIter (hasCb : Bool) (cfg : SrcCfg) (skip lookahead : Nat) (fs : FS) (win 
     if left > win.length then ((skip, lookahead), fs, [], some (.fault (.oob "pes_payload")))
     else
       let fs0 : FS := { fs with frame := { fs.frame with nDu := 0 } }
-      match pesPacketFrame 3 hasCb cfg.corSkipsEmpty fs0 (win.take left) with
+      match pesPacketFrame cfg 3 hasCb cfg.corSkipsEmpty fs0 (win.take left) with
       | (fs1, outs, .callback, _) => ((skip, lookahead), fs1, outs, some .callback)
       | (fs1, outs, .fault e, _) => ((skip, lookahead), fs1, outs, some (.fault e))
       | (fs1, outs, .err, _) =>
